@@ -40,9 +40,10 @@ def fast_sign(d, P, tbs):
 _cert_cache = {}
 
 
-def build_cert(level, attrs, issuer_level, serial):
-    """certificate of entity `level` with the attribute record, issued by entity `issuer_level` (None: self-signed anchor)"""
-    ck = (level, json.dumps(attrs, sort_keys=True), issuer_level)
+def build_cert(level, attrs, issuer_level, serial, flip=False):
+    """certificate of entity `level` with the attribute record, issued by entity `issuer_level` (None: self-signed anchor);
+    flip: the other criticality of the known extensions (keyUsage and basicConstraints not critical, extKeyUsage critical)"""
+    ck = (level, json.dumps(attrs, sort_keys=True), issuer_level, flip)
     if ck in _cert_cache:
         return _cert_cache[ck]
     d, P = key(level)
@@ -56,15 +57,15 @@ def build_cert(level, attrs, issuer_level, serial):
             idd, iP = key(90 + level)
     exts = []
     if attrs["bc"] == "ca":
-        exts.append(ext_bc(True, attrs["plc"] if attrs["plc"] >= 0 else None))
+        exts.append(ext_bc(True, attrs["plc"] if attrs["plc"] >= 0 else None, crit=not flip))
     elif attrs["bc"] == "notca":
-        exts.append(ext_bc(False, None))
+        exts.append(ext_bc(False, None, crit=not flip))
     ku = {"sign": ["digitalSignature"], "enc": ["keyEncipherment"], "certsign": ["keyCertSign", "cRLSign"], "sign+certsign": ["digitalSignature", "keyCertSign"]}.get(attrs["ku"])
     if ku:
-        exts.append(ext_ku(ku))
+        exts.append(ext_ku(ku, crit=not flip))
     eku = {"server": ["serverAuth"], "client": ["clientAuth"], "other": ["codeSigning"]}.get(attrs["eku"])
     if eku:
-        exts.append(ext_eku(eku))
+        exts.append(ext_eku(eku, crit=flip))
     if attrs["crit"] == "unknown":
         exts.append(ext_unknown(False))
     elif attrs["crit"] == "unknowncrit":
@@ -79,7 +80,7 @@ def build_cert(level, attrs, issuer_level, serial):
     return der
 
 
-def concretise(form, hist):
+def concretise(form, hist, flip=False):
     """hist: leaf, [enc leaf], CAs..., anchor (or the Absent record) -> (chain DER, trust DER)"""
     certs = [h for h in hist]
     anchor = certs.pop()
@@ -87,16 +88,16 @@ def concretise(form, hist):
     cas = certs[nlead:]
     # entity levels: leaf 0, enc leaf 50, CA i -> i+1, anchor -> len(cas)+1
     first_issuer = 1
-    ders = [build_cert(0, certs[0], first_issuer, 1000)]
+    ders = [build_cert(0, certs[0], first_issuer, 1000, flip)]
     if form == "tlcp":
-        ders.append(build_cert(50, certs[1], first_issuer, 1050))
+        ders.append(build_cert(50, certs[1], first_issuer, 1050, flip))
     for i, ca in enumerate(cas):
-        ders.append(build_cert(i + 1, ca, i + 2, 1001 + i))
+        ders.append(build_cert(i + 1, ca, i + 2, 1001 + i, flip))
     top = len(cas) + 1
     if anchor.get("bc") == "none":
         trust = build_cert(77, {"bc": "ca", "plc": -1, "ku": "certsign", "eku": "absent", "valid": "in", "sig": "good", "iss": True, "crit": "none"}, None, 1077)
     else:
-        trust = build_cert(top, anchor, None, 1900 + top)
+        trust = build_cert(top, anchor, None, 1900 + top, flip)
     return b"".join(ders), trust
 
 
@@ -190,6 +191,8 @@ def body():
     with cf.ThreadPoolExecutor(shards) as ex:
         jst = sum(ex.map(judge, range(shards)))
     c.cov["tlc_runs"].append({"model": "ChainJudge: property evaluated by TLC on proposed chains", "chains": len(proposed), "states": jst})
+    for ch in proposed:
+        ch["_prop"] = True
     chains = list(proposed)
     # (TLC evaluates the emitting invariant on every successor it generates while simulating, so a handful of walks yields tens of thousands of chains)
     sims = vlib.tlc("Chain", "Chain_sim", workers=4, timeout=900, simulate=(2 if c.quick else 40), depth=12, seed=c.seed)
@@ -208,16 +211,22 @@ def body():
             seen.add(k)
             uniq.append(ch)
     log("[C07] %d distinct chains (%d in the must-accept region, %d unsound)" % (len(uniq), sum(1 for x in uniq if x["must"]), sum(1 for x in uniq if not x["sound"])))
+    # the acceptance conditions do not mention criticality of the known extensions: every unsound proposed chain is also built with keyUsage and
+    # basicConstraints NOT critical and extKeyUsage critical, and must still be refused (the must-accept side is only claimed for the toolkit's own form)
+    nprop = sum(1 for ch in uniq if ch.get("_prop"))
+    for ch in [x for x in uniq if x.get("_prop") and not x["sound"] and (not c.quick or len(x["hist"]) <= 4)]:
+        uniq.append(dict(ch, flip=True, must=False))
+    log("[C07] + %d criticality variants of unsound chains" % sum(1 for x in uniq if x.get("flip")))
     lines = []
     for i, ch in enumerate(uniq):
-        chain, trust = concretise(ch["form"], ch["hist"])
+        chain, trust = concretise(ch["form"], ch["hist"], ch.get("flip", False))
         lines.append({"id": i + 1, "form": ch["form"], "role": ch["role"], "depth": ch["depth"], "chain": chain.hex(), "trust": trust.hex()})
     res = CL.run_script("chaindrv", ["chaindrv.c", "vh.c"], lines, tag="c07")
     drift = 0
     for (case, evs, san), ch in zip(res, uniq):
         desc = "%s:%s:d%d:" % (ch["form"], ch["role"], ch["depth"]) + "|".join(
             "bc=%s,plc=%s,ku=%s,eku=%s,%s,sig=%s,iss=%s,%s" % (h["bc"], h["plc"], h["ku"], h["eku"], h["valid"], h["sig"], h["iss"], h["crit"]) for h in ch["hist"])
-        key = "c07:" + desc
+        key = "c07:" + desc + (":othercrit" if ch.get("flip") else "")
         c.count(1, key)
         if san or not evs:
             c.violation(key[:150] + ":crash", "driver died / sanitizer report: %s" % san, {"chain": ch})
